@@ -238,6 +238,27 @@ def maildir_worker(bdir, tier, lo, hi):
             judge_maildir(res, E, msg, sender, recip, st2, evs2, site, dict(wit0, crash_before_call=k, call=e["c"]), rng)
             code = os.WEXITSTATUS(st2) if os.WIFEXITED(st2) else -1
             res.nontrivial("md-crash", idx, k)
+        # "whatever instant the process dies": a catchable signal just before every call of the writer (TERM, and the
+        # writer's own 24 h ALRM whose handler removes tmp/X; INT and HUP on a subset), judged like a crash
+        for e in calls:
+            for sg in [15, 14] + ([2, 1] if idx % 4 == 0 else []):
+                k = e["n2"]
+                E.reset()
+                E.clearlog()
+                st5 = E.run(msg, sender, "./Maildir/", plan="qmail-local:%d:sig=%d" % (k, sg), recip_local=recip)
+                evs5 = shim.read_log(E.log)
+                res.evaluations += 1
+                if st5 is None:
+                    res.inconclusive.append("maildir delivery hung after signal %d before call %d" % (sg, k))
+                    continue
+                if not any(x.get("inj") == "sig" for x in evs5):
+                    res.inconclusive.append("maildir signal point %d/%d did not fire" % (k, sg))
+                    continue
+                res.counters.inc("maildir_signal_points_fired")
+                d5 = res.counters.setdefault("maildir_outcome_after_signal", {})
+                d5["%d:%s" % (sg, stat_str(st5))] = d5.get("%d:%s" % (sg, stat_str(st5)), 0) + 1
+                judge_maildir(res, E, msg, sender, recip, st5, evs5, "signal-%d-before-%s" % (sg, e["c"]), dict(wit0, signal=sg, before_call=k, call=e["c"]), rng)
+                res.nontrivial("md-signal", idx, k, sg)
         # single-fault sweep
         for e in calls:
             for action in {"write": ["fail=ENOSPC", "short=1", "fail=EIO"], "fsync": ["fail=EIO"], "close": ["fail=EIO"],
@@ -391,6 +412,62 @@ def mbox_worker(bdir, tier, lo, hi):
                   with open(E.home + "/Mailbox", "wb") as f:
                       f.write(snapshot)
                   res.nontrivial("mb-fault", idx, e["n2"], action)
+    # mailboxes whose length does not fit 31 / 32 bits (sparse files): the roll-back position is a file offset, not an int
+    for big in ((1 << 31) + 4321, (1 << 32) + 5000, (1 << 31) - 700):
+        if lo % 3 != [(1 << 31) + 4321, (1 << 32) + 5000, (1 << 31) - 700].index(big) and tier == "quick":
+            continue
+        E.reset()
+        mb = E.home + "/Mailbox"
+        tailmark = b"From old@x.test Thu Jan  1 00:00:00 1970\nold entry at the end of a big mailbox\n\n"
+        try:
+            with open(mb, "wb") as f:
+                f.truncate(big - len(tailmark))
+                f.seek(big - len(tailmark))
+                f.write(tailmark)
+        except OSError as e:
+            res.counters.inc("big_mailbox_not_supported_by_the_file_system")
+            continue
+        msg = b"Subject: big\n\n" + b"a line of the message\n" * 130
+        E.clearlog()
+        st = E.run(msg, b"s@x.test", "./Mailbox")
+        res.evaluations += 1
+        wit = {"mailbox_size_before": big, "msg_len": len(msg)}
+        size1 = os.path.getsize(mb)
+        if st is None or not (os.WIFEXITED(st) and os.WEXITSTATUS(st) == 0):
+            res.violate("C12/mbox/reference-delivery-failed", "fault-free delivery to a mailbox of %d bytes ended with %s" % (big, stat_str(st)), wit)
+            continue
+        with open(mb, "rb") as f:
+            f.seek(big - len(tailmark))
+            tail = f.read()
+        got = mbox_read(tail)
+        if size1 <= big or len(got) != 2 or header_ok(got[1][1], b"s@x.test", b"user-ext@local.test") != msg:
+            res.violate("C12/mbox/big-mailbox-append", "after a delivery to a mailbox of %d bytes the reader finds %d entries at its end (size now %d)" % (big, len(got), size1), wit)
+        ref = [e for e in shim.read_log(E.log) if "n2" in e and e["c"] in ("write", "fsync")]
+        os.truncate(mb, big)
+        for e in ref:
+            action = "fail=EIO" if e["c"] == "fsync" else "fail=ENOSPC"
+            E.clearlog()
+            st = E.run(msg, b"s@x.test", "./Mailbox", plan="qmail-local:%d:%s" % (e["n2"], action))
+            res.evaluations += 1
+            if not any(x.get("inj") == "fail" for x in shim.read_log(E.log)):
+                res.inconclusive.append("big-mailbox fault %s@%d did not fire" % (action, e["n2"]))
+                continue
+            res.counters.inc("big_mailbox_faults_fired")
+            size2 = os.path.getsize(mb)
+            code = os.WEXITSTATUS(st) if (st is not None and os.WIFEXITED(st)) else -1
+            w2 = dict(wit, fault=action, at_call=e["n2"], call=e["c"])
+            if code != 111:
+                res.violate("C12/mbox/exit-status-after-failed-%s" % e["c"], "exit %s after an injected %s (big mailbox)" % (stat_str(st), action), w2)
+            if size2 != big:
+                res.violate("C12/mbox/not-rolled-back/big-mailbox", "failed %s: mailbox of %d bytes is %d bytes long afterwards" % (e["c"], big, size2), w2)
+                os.truncate(mb, big)
+            else:
+                with open(mb, "rb") as f:
+                    f.seek(big - len(tailmark))
+                    if f.read() != tailmark:
+                        res.violate("C12/mbox/content-changed-after-rollback", "size restored but the end of the big mailbox changed", w2)
+            res.nontrivial("mb-big", big, e["n2"])
+        os.unlink(mb)
     E.clock.close()
     return res
 
@@ -673,8 +750,9 @@ def main(tier):
         res.distinct = set()
     rule = ("messages: empty, no final newline, From_/>From_/>>From_ lines, NUL and 8-bit, sizes around the 1024-byte buffers; senders "
             "with spaces, tabs, newlines, empty, #@[]; recipients with newline/space. Maildir: reference run, SIGKILL before every "
-            "mutating libc call (new/ judged under 3 disk variants), one injected fault per call site. Mbox: mailboxes built from 3 "
-            "deliveries judged by the mbox(5) reader after each, one injected write/fsync fault per call (size restored, exit 111), "
+            "mutating libc call (new/ judged under 3 disk variants), a catchable signal (TERM, ALRM; INT, HUP on a subset) before every call, one injected fault per call site. Mbox: mailboxes built from 3 "
+            "deliveries judged by the mbox(5) reader after each, one injected write/fsync fault per call (size restored, exit 111), the same "
+            "on sparse mailboxes of 2^31-700, 2^31+4321 and 2^32+5000 bytes, "
             "2-3 genuinely concurrent deliveries (reader + lock-interval monitor over the event log), and 2-3 deliveries under "
             "CONTROLLED interleaving (every open/flock/write/fsync/ftruncate/close held at the shim's gate and released one at a "
             "time by a seeded scheduler, uniform or priority-with-change-points, optionally one failing write/fsync; distinct = the "
